@@ -47,6 +47,7 @@ manifest = {
     },
     "engines": [
         {"name": "vsim", "path": "/verif/vsim", "serves_properties": [c["property_id"] for c in checks], "kind_free_text": "Python discrete-event simulator (network, clock, entropy, agent) around the real gufo.snmp package and _fast extension; forked workers; plan shrinking; replay files"},
+        {"name": "bufsim", "path": "/verif/rs/src/bufsim.rs (driver: /verif/sim/bufsim.py, run by ./vsim check C17)", "serves_properties": ["C17"], "kind_free_text": "seeded operation sequences on the real Buffer/BufferPool (shadow-manifest rlib of /repo/src, guard off) against a Vec model: native, real-thread pool scenario, and under Miri with its seeded scheduler"},
     ],
     "checks": checks,
     "notes": META.get("notes", ""),
